@@ -771,6 +771,13 @@ pub fn nesting_family(d: usize) -> Vec<String> {
     v.push(format!("QUERY ev WHERE {}", (0..d).map(|i| format!("a{} = {}", i % 9, i)).collect::<Vec<_>>().join(" OR ")));
     v.push(format!("QUERY ev WHERE {}", (0..d).map(|i| format!("a{} = {}", i % 9, i)).collect::<Vec<_>>().join(" AND ")));
     v.push(format!("QUERY ev WHERE {}a = 1{}", "(NOT ".repeat(d), ")".repeat(d)));
+    // STORE payloads: unbalanced and balanced runs of braces / brackets (found by the libFuzzer target: 41 unbalanced
+    // braces did not finish parsing within 20 minutes before the grammar rule was memoised)
+    v.push(format!("STORE ev FOR c PAYLOAD {{\"k\": {}", "{".repeat(d)));
+    v.push(format!("STORE ev FOR c PAYLOAD {{\"k\": {} 1 }}", "{".repeat(d)));
+    v.push(format!("STORE ev FOR c PAYLOAD {{\"k\": {}1{}}}", "{\"a\":".repeat(d), "}".repeat(d)));
+    v.push(format!("STORE ev FOR c PAYLOAD {{\"k\": {}1{}}}", "[".repeat(d), "]".repeat(d)));
+    v.push(format!("STORE ev FOR c PAYLOAD {{\"k\": \"{}\"}}", "{".repeat(d)));
     v.into_iter().filter(|s| s.len() <= 256).collect()
 }
 
